@@ -567,6 +567,38 @@ func CellString(s string) *string {
 	return &s
 }
 
+// compareByValue compares two cells holding int64 literals, float64 literals
+// or time anchors by their value. It returns false for anything else.
+func compareByValue(ci, cj *Cell) (int, bool) {
+	sign := func(less, greater bool) int {
+		switch {
+		case less:
+			return -1
+		case greater:
+			return 1
+		}
+		return 0
+	}
+	switch {
+	case ci == nil || cj == nil:
+		return 0, false
+	case ci.T != nil && cj.T != nil:
+		return sign(ci.T.Before(*cj.T), ci.T.After(*cj.T)), true
+	case ci.L != nil && cj.L != nil && ci.L.Type() == cj.L.Type():
+		switch ci.L.Type() {
+		case literal.Int64:
+			vi, _ := ci.L.Int64()
+			vj, _ := cj.L.Int64()
+			return sign(vi < vj, vi > vj), true
+		case literal.Float64:
+			vi, _ := ci.L.Float64()
+			vj, _ := cj.L.Float64()
+			return sign(vi < vj, vi > vj), true
+		}
+	}
+	return 0, false
+}
+
 // cellKind returns a number identifying the kind of value held by the cell.
 func cellKind(c *Cell) int {
 	switch {
@@ -621,6 +653,14 @@ func rowLess(ri, rj Row, c SortConfig) bool {
 		si, sj = ci.T.Format(time.RFC3339Nano), cj.T.Format(time.RFC3339Nano)
 	}
 	l := stringLess(si, sj, cfg.Desc)
+	if v, ok := compareByValue(ci, cj); ok {
+		// Numbers and time anchors are ordered by their value; their
+		// textual forms do not sort like the values they stand for.
+		l = v
+		if cfg.Desc {
+			l *= -1
+		}
+	}
 	if ki, kj := cellKind(ci), cellKind(cj); ki != kj {
 		// Values of different kinds have no common textual form to compare.
 		// They are ordered by kind, so that sorting remains a total order
